@@ -192,6 +192,18 @@ impl Outcome {
     pub fn violate(&mut self, clause: &'static str, site: impl Into<String>, detail: impl Into<String>, replay: Value) {
         self.violations.push(Violation::new(clause, site, detail, replay));
     }
+    /// Keep only what the given oracle clauses (plus the crash / termination clauses) produced: a
+    /// workload borrowed from another property is judged by this property's clauses only.
+    pub fn retain_clauses(mut self, keep: &[&str], label: &str) -> Self {
+        let always = ["no_panic", "run_ends_within_virtual_time_budget"];
+        self.violations.retain(|v| keep.contains(&v.clause.as_str()) || always.contains(&v.clause.as_str()));
+        self.hits.retain(|k, _| keep.contains(k));
+        self.sets.clear();
+        self.sample = None;
+        self.counters = self.counters.into_iter().map(|(k, v)| (format!("{label}:{k}"), v)).collect();
+        self.nontrivial = self.nontrivial.map(|s| format!("{label}|{s}"));
+        self
+    }
 }
 
 pub struct Report {
